@@ -248,6 +248,7 @@ pub fn pat_type(p: &Pat) -> VT {
         | Pat::Named(l, q) => VT::Named(l.clone(), Box::new(pat_type(q))),
         | Pat::Ctor(d, _, _) => VT::Data(*d),
         | Pat::Alias(a, _) => pat_type(a),
+        | Pat::Project(_, _, whole, _) => whole.clone(),
     }
 }
 
@@ -385,6 +386,10 @@ impl Printer {
                 let inner = format!("({}; {})", self.pat_item(a, false), self.pat_item(b, false));
                 if annotate { format!("({} : {})", inner, vt(&pat_type(p))) } else { inner }
             }
+            | Pat::Project(l, _, whole, q) => {
+                let inner = format!("(/{} = {})", l, self.pat_item(q, false));
+                if annotate { format!("({} : {})", inner, vt(whole)) } else { inner }
+            }
         }
     }
     /// pattern inside a parenthesised list (annotations without their own parentheses)
@@ -395,6 +400,9 @@ impl Printer {
             | Pat::Named(l, q) => format!("{} = {}", l, self.pat_item(q, annotate)),
             | Pat::Alias(a, b) if annotate => {
                 format!("({}; {}) : {}", self.pat_item(a, false), self.pat_item(b, false), vt(&pat_type(p)))
+            }
+            | Pat::Project(l, _, whole, q) => {
+                if annotate { format!("(/{} = {}) : {}", l, self.pat_item(q, false), vt(whole)) } else { format!("/{} = {}", l, self.pat_item(q, false)) }
             }
             | _ => self.pat(p, annotate),
         }
